@@ -229,6 +229,12 @@ func (e Float32Engine) Inner(a, b Tensor) (retVal float32, err error) {
 		return 0, errors.Errorf("b is not a *Dense")
 	}
 
+	if !AD.DataOrder().IsContiguous() || !BD.DataOrder().IsContiguous() {
+		// BLAS walks the backing arrays with unit stride: a view with gaps is not the vector
+		// it would be told about
+		return 0, errors.Errorf(nonContiguousBLAS)
+	}
+
 	A = AD.Float32s()
 	B = BD.Float32s()
 	retVal = whichblas.Sdot(len(A), A, 1, B, 1)
